@@ -27,6 +27,11 @@ class _Rewriter(ast.NodeTransformer):
             self.count["fmt"] += 1
             return ast.copy_location(ast.Call(func=ast.Name(id="__vfmt__", ctx=ast.Load()),
                                               args=[node.left, node.right], keywords=[]), node)
+        if "fmt" in self.opts and isinstance(node.op, ast.Mod) and isinstance(node.left, (ast.Name, ast.Attribute)):
+            # template held in a variable / attribute: decided at run time (falls back to the plain operator)
+            self.count["fmt"] += 1
+            return ast.copy_location(ast.Call(func=ast.Name(id="__vmod__", ctx=ast.Load()),
+                                              args=[node.left, node.right], keywords=[]), node)
         return node
 
     def visit_JoinedStr(self, node):
@@ -324,7 +329,13 @@ def vin(a, b):
     return a in b
 
 
-HOOKS = {"__vin__": vin, "__vformat__": vformat, "__vfmt__": vfmt, "__vfstr__": vfstr, "__vidx__": vidx, "__vjoin__": vjoin, "__vdict__": dict}
+def vmod(a, b):
+    if isinstance(a, (str, bytes)) and type(a) in (str, bytes):
+        return vfmt(a, b)
+    return a % b
+
+
+HOOKS = {"__vmod__": vmod, "__vin__": vin, "__vformat__": vformat, "__vfmt__": vfmt, "__vfstr__": vfstr, "__vidx__": vidx, "__vjoin__": vjoin, "__vdict__": dict}
 
 
 def instrument(func, opts=("fmt", "fstr", "idx"), owner=None, extra=None, hooks=None):
